@@ -123,6 +123,7 @@ type evaluator struct {
 	argIndex       int
 	hadFiles       bool
 	inputDone      bool
+	inGetline      bool
 
 	rnd      *rand.Rand
 	randSeed float64
